@@ -4,12 +4,13 @@ C16  Sub-domain extraction returns exactly the rows inside the region.
 import OsyrisModel
 import OsyrisProofs.C06
 import OsyrisProofs.C02
+import OsyrisProofs.C09
 import Mathlib.Tactic.Linarith
 import Mathlib.Tactic.FieldSimp
 import Mathlib.Tactic.Ring
 
 namespace Osyris.C16
-open Osyris Osyris.Subdomain
+open Osyris Osyris.Subdomain Osyris.C09
 
 /-- the body of the extraction loop for one group -/
 def stepGroup (ds : DsV) (maskOf : VecV → Res (List Bool)) (acc : DsV) (e : String × DgV) : Res DsV := do
@@ -178,40 +179,6 @@ theorem C16_box_row_phys (T : Tables) (p o sz sz' d : ArrV) (same : Bool) (n : N
     · by_contra hc
       rw [not_le] at hc
       have := mul_lt_mul_of_pos_right hc hfpos; linarith
-
-/-- the fold of `normSq`: position `i` accumulates the squares of the components' entries -/
-theorem normSq_fold_get (cs : List ArrV) (i : Nat) : ∀ (acc : List Rat), i < acc.length →
-    (∀ c ∈ cs, i < c.data.length) →
-    getR (cs.foldl (fun acc c => List.zipWith (· + ·) acc (c.data.map fun t => t * t)) acc) i =
-      getR acc i + (cs.map fun c => getR c.data i * getR c.data i).sum := by
-  induction cs with
-  | nil => intro acc _ _; simp
-  | cons c cs ih =>
-    intro acc hacc hlen
-    have hc : i < c.data.length := hlen c (by simp)
-    simp only [List.foldl_cons, List.map_cons, List.sum_cons]
-    rw [ih _ (by simp [hacc, hc]) (fun c' hc' => hlen c' (by simp [hc']))]
-    have : getR (List.zipWith (· + ·) acc (c.data.map fun t => t * t)) i = getR acc i + getR c.data i * getR c.data i := by
-      unfold getR
-      simp [List.getD_eq_getElem?_getD, List.getElem?_zipWith, hacc, hc]
-    rw [this]; ring
-
-theorem normSq_get (v : VecV) (x : ArrV) (rest : List ArrV) (hv : v.comps = x :: rest) (i : Nat)
-    (hlen : ∀ c ∈ v.comps, i < c.data.length) :
-    getR v.normSq i = (v.comps.map fun c => getR c.data i * getR c.data i).sum := by
-  unfold VecV.normSq
-  rw [hv] at hlen ⊢
-  simp only [List.map_cons, List.sum_cons]
-  have hx : i < x.data.length := hlen x (by simp)
-  rw [normSq_fold_get rest i _ (by simp [hx]) (fun c hc => hlen c (by simp [hc]))]
-  congr 1
-  unfold getR
-  simp [List.getD_eq_getElem?_getD, hx]
-
-theorem phys_get (a : ArrV) (i : Nat) : getR a.phys i = getR a.data i * a.unit.factor := by
-  unfold ArrV.phys getR
-  simp only [List.getD_eq_getElem?_getD, List.getElem?_map]
-  cases a.data[i]? <;> simp
 
 /-- **C16 (sphere test in physical terms)**, positions with at least two components: `d` is the centred
     position Vector (components in one unit of factor `f > 0`), `rad` the radius in its own unit. The test
